@@ -73,14 +73,14 @@ def member(z, extra=None, timeout_ms=120000):
 def gen_points(langs, n):
     """Solver-chosen members: one query per (language, exact length); exact lengths are what z3's sequence
     solver answers in milliseconds here (open-ended length constraints took seconds)."""
-    lengths = [2, 80, 16, 44, 23, 57, 7, 33, 19, 47, 26, 63, 11, 38, 14, 52, 21, 70, 29, 41, 1, 4, 17, 24][:n]
+    lengths = [2, 30, 16, 44, 23, 12, 7, 33, 19, 47, 26, 9, 11, 38, 14, 52, 21, 57, 29, 41, 1, 4, 17, 24][:n]
     # (no `s != previous` constraints: string disequalities made each query take seconds)
     pts = []
     s = z3.String('s')
     for z in langs:
         for ln in lengths:
             sol = z3.Solver()
-            sol.set('timeout', 1500)
+            sol.set('timeout', 1000)
             sol.add(z3.InRe(s, z), z3.Length(s) == ln)
             if str(sol.check()) == 'sat':
                 w = strlang.model_string(sol.model(), s)
